@@ -47,6 +47,48 @@ var (
 	StringDomain = Domain[string]{"string", []string{"a", "b", "c", "ab", "1", "2", "", " ", "q\"x", "é<&>", " ", "b\\", "null", "[]", "a\":\"c", "\t\n", "u\x1f4", "\x7f", "\x00", "\U000e0001"}}
 )
 
+// BigIntDomain has 260 values (contents of dozens to hundreds of elements);
+// FloatDomain holds finite float64 values whose JSON text is unusual: exponent
+// forms, negative zero, values near the limits of exact integers.
+var (
+	BigIntDomain = func() Domain[int] {
+		d := Domain[int]{Name: "bigint"}
+		for i := 0; i < 256; i++ {
+			d.Elems = append(d.Elems, i*3-100)
+		}
+		d.Elems = append(d.Elems, 1<<62, -(1 << 62), 1<<53+1, 1000000007)
+		return d
+	}()
+	FloatDomain = Domain[float64]{"float", []float64{0, 1, -1, 0.5, 2.5, 1e21, 1e-7, -1e300, 123456789.125, 9007199254740993, 3.141592653589793, 1e20, 100, -0.1, 5e-324, 1.7976931348623157e308}}
+)
+
+// GenOpsBig draws a long state-building script (bulk adds of up to 60 values).
+func GenOpsBig(t *rapid.T, kind string, n int) []Op {
+	var ops []Op
+	kv := all.KeyValue(kind)
+	for chunk := 0; chunk < 4; chunk++ {
+		part := rapid.SliceOfN(rapid.Custom(func(t *rapid.T) Op {
+			switch dom.Weighted(t, "op", 25, 25, 20, 28, 2) {
+			case 0:
+				return Op{O: "add", X: rapid.IntRange(0, n-1).Draw(t, "x")}
+			case 1:
+				return Op{O: "addn", Xs: rapid.SliceOfN(rapid.IntRange(0, n-1), 0, 60).Draw(t, "xs")}
+			case 2:
+				if kv {
+					return Op{O: "put", X: rapid.IntRange(0, n-1).Draw(t, "x"), Y: rapid.IntRange(0, n-1).Draw(t, "y")}
+				}
+				return Op{O: "add", X: rapid.IntRange(0, n-1).Draw(t, "x")}
+			case 3:
+				return Op{O: "rem", X: rapid.IntRange(0, n-1).Draw(t, "x")}
+			default:
+				return Op{O: "clear"}
+			}
+		}), 0, 40).Draw(t, "ops")
+		ops = append(ops, part...)
+	}
+	return ops
+}
+
 // Apply runs op on the container.
 func Apply[E cmp.Ordered](h *all.H[E], d Domain[E], op Op) {
 	switch op.O {
